@@ -203,6 +203,34 @@ pub fn panics_on_this_thread() -> u64 {
     PANIC_COUNT.try_with(|c| c.get()).unwrap_or(0)
 }
 static HOOK_INSTALLED: AtomicBool = AtomicBool::new(false);
+static HEARTBEAT: std::sync::atomic::AtomicU64 = std::sync::atomic::AtomicU64::new(0);
+
+/// A worker that evaluates no case for `limit` is stuck (the tested code waits for something that never comes): that
+/// is infrastructure trouble - exit 2 with a message - never a pass and never a violation.
+pub fn start_progress_watchdog(what: String, limit: std::time::Duration) {
+    std::thread::spawn(move || {
+        let mut last = HEARTBEAT.load(Ordering::SeqCst);
+        let mut since = std::time::Instant::now();
+        loop {
+            std::thread::sleep(std::time::Duration::from_secs(2));
+            let now = HEARTBEAT.load(Ordering::SeqCst);
+            if now != last {
+                last = now;
+                since = std::time::Instant::now();
+            } else if since.elapsed() > limit {
+                eprintln!("[lv] {}: no case finished for {:?} - the worker is stuck (hang): infrastructure trouble, not a violation", what, limit);
+                std::process::exit(2);
+            }
+        }
+    });
+}
+static LIBRARY_PANICS: std::sync::atomic::AtomicU64 = std::sync::atomic::AtomicU64::new(0);
+
+/// Panics raised so far, on any thread, at a location inside the log4rs sources (a thread the library started on its
+/// own - background rotation, the reloader - may die of one without anybody seeing it).
+pub fn library_panics_total() -> u64 {
+    LIBRARY_PANICS.load(Ordering::SeqCst)
+}
 
 /// Installs a quiet panic hook which records the message (per thread) instead of printing.
 pub fn install_quiet_panic_hook() {
@@ -224,6 +252,12 @@ pub fn install_quiet_panic_hook() {
         // (try_with: the hook may run while the thread's locals are being destroyed)
         let _ = LAST_PANIC.try_with(|p| *p.borrow_mut() = Some(format!("{} @ {}", msg, loc)));
         let _ = PANIC_COUNT.try_with(|c| c.set(c.get() + 1));
+        if info.location().map_or(false, |l| {
+            let f = l.file();
+            ["/src/append/", "/src/encode/", "/src/config/", "/src/filter/", "/src/lib.rs", "/src/priv_io.rs"].iter().any(|m| f.contains(m)) && !f.contains("harness")
+        }) {
+            LIBRARY_PANICS.fetch_add(1, Ordering::SeqCst);
+        }
         if std::env::var_os("LV_SHOW_PANICS").is_some() {
             eprintln!("[panic] {} @ {}", msg, loc);
         }
@@ -328,6 +362,7 @@ impl Run {
     }
 
     fn record(&self, part: &str, case_json: impl FnOnce() -> serde_json::Value, obs: Obs) {
+        HEARTBEAT.fetch_add(1, Ordering::SeqCst);
         let mut st = self.stats.borrow_mut();
         st.evaluations += 1;
         st.sub_evaluations += obs.sub_evals;
@@ -392,6 +427,7 @@ impl Run {
         value: &V,
         f: &dyn Fn(&V, &mut Obs) -> CaseResult,
     ) -> bool {
+        HEARTBEAT.fetch_add(1, Ordering::SeqCst);
         let mut obs = Obs::default();
         let r = match catch(|| f(value, &mut obs)) {
             Ok(r) => r,
@@ -448,6 +484,8 @@ impl Run {
         let failed = Cell::new(false);
         let last_failure: RefCell<Option<Failure>> = RefCell::new(None);
         let result = runner.run(&strat, |value| {
+            // (also while shrinking: a worker busy minimising a failure is not stuck)
+            HEARTBEAT.fetch_add(1, Ordering::SeqCst);
             let mut obs = Obs::default();
             let r = match catch(|| f(&value, &mut obs)) {
                 Ok(r) => r,
